@@ -142,7 +142,7 @@ func (g *G) Attr(depth int, addressable bool) *schema.AttributeSchema {
 		a.SemanticTokenModifiers = lang.SemanticTokenModifiers{lang.SemanticTokenModifier(g.id("mod"))}
 	}
 	if g.O.Hooks && g.coin(0.2) {
-		a.CompletionHooks = lang.CompletionHooks{{Name: "GenHook"}}
+		a.CompletionHooks = lang.CompletionHooks{{Name: []string{"GenHook", "GenHook", "SparseHook", "FailingHook"}[g.pick(4)]}}
 	}
 	return a
 }
